@@ -16,7 +16,10 @@ import (
 	"encoding/hex"
 	"encoding/json"
 	"encoding/pem"
+	"io/fs"
 	"math/big"
+	"testing/fstest"
+	"time"
 
 	"github.com/wokdav/gopki/generator/cert"
 	"github.com/wokdav/gopki/generator/db/filesystem"
@@ -176,6 +179,8 @@ func execPkcs8(raw json.RawMessage) any {
 	k, err := cert.ParsePKCS8PrivateKey(der)
 	if err != nil {
 		out["readErr"] = true
+		// "rejected with an error" means: no key object comes back with the error (a typed nil pointer inside the interface is one)
+		out["keyWithError"] = k != nil
 		return out
 	}
 	out["key"] = describeKey(k)
@@ -377,9 +382,28 @@ func execPemFile(raw json.RawMessage) any {
 		}
 		goBlocks = append(goBlocks, J{"type": b.Type, "bytes": hex.EncodeToString(b.Bytes), "headers": len(b.Headers), "reenc": hex.EncodeToString(pem.EncodeToMemory(&pem.Block{Type: b.Type, Bytes: b.Bytes}))})
 	}
+	// gopki's own reading of the stored configuration hash: a real Open over a directory holding this text as e.pem
+	storedHash := "-"
+	func() {
+		defer func() { recover() }()
+		cj := must(json.Marshal(J{"version": 1, "subject": "CN=pemfile"}))
+		mfs := fstest.MapFS{".": &fstest.MapFile{Mode: 0777 | fs.ModeDir},
+			"e.yaml": &fstest.MapFile{Data: cj, Mode: 0644, ModTime: time.Now().Add(-time.Hour)},
+			"e.pem":  &fstest.MapFile{Data: append([]byte{}, content...), Mode: 0644, ModTime: time.Now().Add(-time.Minute)}}
+		d := filesystem.NewFilesystemDatabase(filesystem.NewMapFs(mfs))
+		if d.Open() == nil {
+			if md, merr := d.GetMetadata("e"); merr == nil && md != nil {
+				if md.LastConfigHash == nil {
+					storedHash = ""
+				} else {
+					storedHash = "h" + hex.EncodeToString(md.LastConfigHash)
+				}
+			}
+		}
+	}()
 	// a file gopki itself wrote for this key algorithm, with the DER values it holds
 	gf := gopkiFiles[in.KeyAlg]
-	return J{"len": len(bb.Bytes()), "ends": ends, "readErr": err != nil, "blocks": goBlocks, "trailing": len(restP) != 0,
+	return J{"len": len(bb.Bytes()), "ends": ends, "readErr": err != nil, "blocks": goBlocks, "trailing": len(restP) != 0, "storedHash": storedHash,
 		"gopkiFile": hex.EncodeToString(gf), "matCert": hex.EncodeToString(mat[0]), "matKey": hex.EncodeToString(mat[1]), "textHex": hex.EncodeToString(content),
 		"cert": pf.Certificate != nil, "key": pf.PrivateKey != nil, "csr": pf.Request != nil,
 		"sameCert": sameCert, "sameKey": sameKey, "sameCsr": sameCsr,
